@@ -794,6 +794,25 @@ func reflectModel(st *pstate, ev *Event, val *ssa.Call) *Sym {
 	return nil
 }
 
+// descendingInduction: phi(init, phi-1, …): returns the initial value.
+func descendingInduction(phi *ssa.Phi) (ssa.Value, bool) {
+	var init ssa.Value
+	n := 0
+	for _, e := range phi.Edges {
+		if bo, ok := e.(*ssa.BinOp); ok && bo.Op == token.SUB && bo.X == ssa.Value(phi) {
+			if c, ok := bo.Y.(*ssa.Const); ok {
+				if v, _ := constant.Int64Val(c.Value); v == 1 {
+					continue
+				}
+			}
+			return nil, false
+		}
+		init = e
+		n++
+	}
+	return init, n == 1 && init != nil
+}
+
 // evalBool: truth of a boolean sym under the path facts.
 func evalBool(st *pstate, b *Sym) (bool, bool) {
 	if b == nil {
@@ -1032,7 +1051,16 @@ func (ps *PathSim) walk(fn *ssa.Function, b *ssa.BasicBlock, start int, pred *ss
 						break
 					}
 					st.iters[phi]++
-					st.env[phi] = &Sym{K: sOpaque, V: phi, T: phi.Type(), iter: 1000 + st.iters[phi], Str: "havoc"}
+					hs := &Sym{K: sOpaque, V: phi, T: phi.Type(), iter: 1000 + st.iters[phi], Str: "havoc"}
+					// monotone induction variables keep their one-sided bound through the widening
+					if start, ok := ascendingInduction(phi); ok {
+						hs.Str = "havoc-asc"
+						hs.C = constant.MakeInt64(start)
+					} else if init, ok := descendingInduction(phi); ok {
+						hs.Str = "havoc-desc"
+						hs.A = ps.sym(st, init)
+					}
+					st.env[phi] = hs
 				}
 				st.trail = append(st.trail, fmt.Sprintf("%s.b%d:widened", fn.Name(), b.Index))
 			}
